@@ -219,6 +219,57 @@ int main(int argc, char** argv)
       if(od.len == 4 && od.d[0] == 0 && od.d[1] == 12) vf::sample(cs, 3);
     }
   }
+  else if(mode == "reuse")
+  { // histories on ONE Parser object and ONE result element: parse(doc1) then parse(doc2) must behave like a fresh parser on doc2
+    int len2 = (int)vf::argll(argc, argv, "--len2", len);
+    struct Doc { std::string text; int ntok; vf::Exact* e; bool ok; int line, col; std::string err, val; };
+    std::vector<Doc*> docs;
+    {
+      vf::Odometer od(NTOK, len > len2 ? len : len2);
+      while(od.next())
+      {
+        Doc* d = new Doc; d->ntok = od.len;
+        for(int i = 0; i < od.len; ++i) d->text += TOK[od.d[i]];
+        d->e = new vf::Exact(d->text, true);
+        Xml::Parser f; Xml::Element el;
+        d->ok = f.parse(String::fromCString(d->e->p, d->text.size()), el);
+        d->line = d->ok ? 0 : f.getErrorLine(); d->col = d->ok ? 0 : f.getErrorColumn();
+        if(!d->ok) { String es = f.getErrorString(); d->err.assign((const char*)es, es.length()); }
+        else { String t = el.toString(); d->val.assign((const char*)t, t.length()); }
+        docs.push_back(d);
+      }
+    }
+    long long n = 0;
+    for(size_t i = 0; i < docs.size(); ++i)
+    {
+      if(docs[i]->ntok > len) break;   // the vector is ordered by token count
+      if(!sh.take()) continue;
+      for(size_t j = 0; j < docs.size() && docs[j]->ntok <= len2; ++j)
+      {
+        if((n++ & 0xfff) == 0) { vf::watchdog_arm(20000); vf::crumb("xml.reuse", sh.token(), "reuse first='" + vf::show(docs[i]->text) + "' second='" + vf::show(docs[j]->text) + "'"); }
+        Xml::Parser p; Xml::Element el;
+        p.parse(String::fromCString(docs[i]->e->p, docs[i]->text.size()), el);
+        const Doc& d = *docs[j];
+        bool ok = p.parse(String::fromCString(d.e->p, d.text.size()), el);
+        vf::hit("reuse_pairs"); vf::hit("parse_inputs"); vf::hit("distinct_nontrivial");
+        bool same = ok == d.ok;
+        std::string got;
+        if(same && ok) { String t = el.toString(); got.assign((const char*)t, t.length()); same = got == d.val; }
+        if(same && !ok)
+        {
+          String es = p.getErrorString();
+          same = p.getErrorLine() == d.line && p.getErrorColumn() == d.col && std::string((const char*)es, es.length()) == d.err;
+        }
+        if(!same)
+        {
+          String es = p.getErrorString();
+          vf::violation("C16:xml:parser-reuse", "reuse first='" + vf::show(docs[i]->text) + "' second='" + vf::show(d.text) + "'",
+            vf::fmt("second parse on the same Parser: ok=%d line %d column %d '%s' value '%s'; a fresh Parser: ok=%d line %d column %d '%s' value '%s'",
+              (int)ok, ok ? 0 : p.getErrorLine(), ok ? 0 : p.getErrorColumn(), ok ? "" : (const char*)es, vf::show(got).c_str(), (int)d.ok, d.line, d.col, d.err.c_str(), vf::show(d.val).c_str()));
+        }
+      }
+    }
+  }
   else if(mode == "deep")
   {
     static const int depths[] = {1, 10, 100, 1000};
